@@ -18,8 +18,14 @@ func checkC02(c *Ctx, r *Report) {
 	r.Explanation = "Coverage rules on the table writer: every transition is grouped under its source state; in CheckAndResolveConflict the reduce arm adds an action for every symbol of the transition's lookahead set (a range over the whole slice, unconditional append) and the shift arm for the transition's symbol; the pairwise fold ends with exactly one action per cell; GenTable stores every resolved key except ERROR; every reduce transition gets a lookahead set. Emitted = computed: the dense table is printed row by row, value by value, without slicing; the five packed arrays are paired with the fields whose role (payload / offsets / check / action defaults / goto defaults) the generated reader gives to each emitted name; the dense reader indexes [state][symbol]. Not decided: membership of any sentence; prerequisites C03 (lookaheads not under-approximated) and C05 (lossless packing) are listed as assumptions and decided by their own checks."
 	r.Assumptions = append(r.Assumptions, "lookahead sets are LALR(1) (C03) and packing is lossless (C05): both have their own checks", "the LR(0) collection is canonical (C09)")
 	st := c.GetStaged()
+	stagedErrors(r, "C02", st)
 	c02a(c, r)
 	c02b(c, r, st)
+	// C02.c prerequisites, evaluated here as well: a sentence is lost as soon as a lookahead is missing (C03),
+	// a packed lookup differs from the dense table (C05) or a state/transition is missing (C09)
+	includePrereq(c, r, "C02.c", checkC03)
+	includePrereq(c, r, "C02.c", checkC05)
+	includePrereq(c, r, "C02.c", checkC09)
 }
 
 func c02a(c *Ctx, r *Report) {
